@@ -35,6 +35,8 @@ FrameRules(e) ==
        \o If(e.hw >= 0 /\ e.hw <= c.lastHw, "FrameIdNotIncreasing")
        \o If(c.gated /\ c.frames + 1 > c.trigs, "FrameWithoutTrigger")
        \o If(c.gated /\ e.hw >= 0 /\ e.hw + 1 > c.trigs, "FrameIdBeyondTriggers")
+       \* the count restarts with each start: gen bounds (generously) the frames this run's streamer thread can have generated
+       \o If("gen" \in DOMAIN e /\ e.hw > e.gen, "FrameIdBeyondGenerated")
        \* C17 on a camera re-configured while a frame call is pending (the harness compares the caller's buffer with the shape
        \* reported together with the frame, exp bytes): nothing written past them, filled to the end
        \o If("past" \in DOMAIN e /\ e.past, "FrameWritesPastImage")
